@@ -1395,6 +1395,8 @@ class Explorer:
         self.vc_dump = []        # smt2 strings of a few VCs (for the second-solver cross-check)
         self.vc_dump_limit = 0
         self.part_skipped = 0
+        self._part_last = None
+        self._part_ord = -1
         # per path
         self._reset_path()
 
@@ -1572,8 +1574,12 @@ class Explorer:
             v = 0
         self.choices.append(v)
         if self.part is not None and len(self.choices) == self.part[2]:
-            import zlib
-            if zlib.crc32(repr(self.choices).encode()) % self.part[1] != self.part[0]:
+            # round-robin over the distinct prefixes of length `depth` in depth-first order (every part sees the same order)
+            pre = tuple(self.choices)
+            if pre != self._part_last:
+                self._part_last = pre
+                self._part_ord += 1
+            if self._part_ord % self.part[1] != self.part[0]:
                 self.part_skipped += 1
                 raise self._abort()
         return v
